@@ -5,9 +5,9 @@ import ast
 from typing import Any, Callable, Dict, List, Optional, Set, Tuple
 
 from ..core import AnalysisError, Report
-from ..excflow import (Site, _const_like, _in_annotation, collect_sites, dominating_guards, handler_converts, lexical_handler,
+from ..excflow import (GuardFacts, Site, _const_like, _in_annotation, collect_sites, dominating_guards, handler_converts, lexical_handler,
                        make_hierarchy)
-from ..pyfacts import (Repo, ancestors, calls, dotted, enclosing_handlers, handler_types, norm, parent, raise_guards,
+from ..pyfacts import (Repo, cc, cn, ancestors, calls, dotted, enclosing_handlers, handler_types, norm, parent, raise_guards,
                        raised_class, walk_no_nested)
 
 ASM = 'flipjump/assembler/assembler.py'
@@ -135,15 +135,15 @@ def discharge(repo: Repo, rel: str, q: str, fn: ast.FunctionDef, s: Site, sub: C
     if s.key in ALLOW:
         return f'ALLOW: {ALLOW[s.key]}'
     guards = dominating_guards(node)
-    gd = {t: p for t, p in guards}
     # loop conditions dominate their bodies
     child: ast.AST = node
     for a in ancestors(node):
         if isinstance(a, ast.While) and any(child is b for b in a.body):
-            gd[norm(a.test)] = True
+            guards.append((norm(a.test), True))
         if isinstance(a, (ast.FunctionDef, ast.AsyncFunctionDef)):
             break
         child = a
+    gd = GuardFacts(guards)          # canonical facts: spelling / nesting / negation of the guards does not matter
     if s.kind == 'subscript':
         base, key = norm(node.value), norm(node.slice)          # type: ignore[attr-defined]
         if gd.get(f'{key} in {base}') is True or gd.get(f'{key} not in {base}') is False:
@@ -265,7 +265,7 @@ def context(repo: Repo) -> Dict[str, Any]:
     ctx['writer_validated'] = writer_validated(repo)[0]
     # macro lookup guard
     ent = repo.func(PRE, 'PreprocessorData._PrepareMacroCall.__enter__')
-    guarded = any(isinstance(n, ast.If) and norm(n.test) == 'macro_name not in self.macros' and
+    guarded = any(isinstance(n, ast.If) and cn(n.test) == cc('macro_name not in self.macros') and
                   any(isinstance(c, ast.Call) and dotted(c.func) == 'macro_resolve_error' for c in ast.walk(n)) for n in ast.walk(ent))
     mre = repo.func(PRE, 'macro_resolve_error')
     noreturn = norm(mre.returns) == 'NoReturn' and isinstance(mre.body[-1], ast.Raise)
@@ -280,7 +280,7 @@ def context(repo: Repo) -> Dict[str, Any]:
                         calls_ok = False
     ctx['macro_lookup_guarded'] = guarded and noreturn and calls_ok
     gp = repo.func(PRE, 'get_pad_ops_alignment')
-    ctx['pad_alignment_guarded'] = any(isinstance(n, ast.If) and norm(n.test) == 'ops_alignment <= 0' and
+    ctx['pad_alignment_guarded'] = any(isinstance(n, ast.If) and cn(n.test) in (cc('ops_alignment <= 0'), cc('ops_alignment < 1')) and
                                        any(isinstance(c, ast.Call) and dotted(c.func) == 'macro_resolve_error' for c in ast.walk(n))
                                        for n in ast.walk(gp)) and noreturn and all(
         norm(c.args[0]) == 'ops_alignment' for q, fn in all_functions(repo, PRE) for c in calls(fn)
@@ -371,7 +371,7 @@ def rule_recursion(rep: Report, repo: Repo, clo: List[Tuple[str, str, ast.Functi
         why = ''
         if q == 'resolve_macro_aux':
             ent = repo.func(PRE, 'PreprocessorData._PrepareMacroCall.__enter__')
-            depth = any(isinstance(n, ast.If) and norm(n.test) == 'len(self.curr_tree) > self.max_recursion_depth' for n in ast.walk(ent))
+            depth = any(isinstance(n, ast.If) and cn(n.test) == cc('len(self.curr_tree) > self.max_recursion_depth') for n in ast.walk(ent))
             pinit = repo.func(PRE, 'PreprocessorData.__init__')
             lim = [norm(c.args[0]) for c in calls(pinit) if dotted(c.func) == 'sys.setrecursionlimit']
             guarded = depth and lim == ['max_recursion_depth + GAP_BETWEEN_PYTHONS_AND_PREPROCESSOR_MACRO_RECURSION_DEPTH']
